@@ -45,11 +45,18 @@ def rule_fields(fname):
     over all languages, read from config.json (the documented precondition of a rule function)."""
     cfg = mir()["config"]
     kinds, shapes = {}, []
+    sources = []
     for lang, l in cfg["languages"].items():
         r = l["rules"].get(fname)
-        if not r:
-            continue
-        for pat in r["rules"]:
+        if r:
+            sources.append(r["rules"])
+    if fname == "small_date":
+        # its patterns are installed by SmartCalc::default() through set_date_rule (src/smartcalc.rs)
+        text = open(os.path.join(common.REPO, "src/smartcalc.rs"), errors="replace").read()
+        for m in re.finditer(r"set_date_rule\(\"\w+\", vec!\[(.*?)\]\)", text, re.S):
+            sources.append(re.findall(r"\"([^\"]*\{[^\"]*)\"", m.group(1)))
+    for pats in sources:
+        for pat in pats:
             names = set()
             for m in re.finditer(r"\{([A-Z_]+):([^:}]+)(?::[^}]+)?\}", pat):
                 ft, name = m.group(1), m.group(2)
@@ -71,13 +78,23 @@ class Q:
         self.part = part
 
     def check(self, ex, path, neg_claim, timeout_ms=60000):
-        s = z3.Solver()
-        s.set("timeout", timeout_ms)
-        for c in ex.domain + ex.assumptions + list(path.pc):
-            s.add(c)
-        s.add(neg_claim)
         t0 = time.time()
-        r = s.check()
+        r = z3.unknown
+        # z3's arithmetic is sensitive to its random seed on div/mod-heavy queries: retry an 'unknown' with other
+        # seeds / a preprocessing tactic before giving up (an unknown is never read as a pass)
+        for attempt, (seed, tactic, tmo) in enumerate(((0, None, min(timeout_ms, 20000)), (7, "simplify", timeout_ms), (23, None, timeout_ms))):
+            s = z3.Then("simplify", "solve-eqs", "smt").solver() if tactic else z3.Solver()
+            s.set("timeout", tmo)
+            try:
+                s.set("random_seed", seed)
+            except z3.Z3Exception:
+                pass
+            for c in ex.domain + ex.assumptions + list(path.pc):
+                s.add(c)
+            s.add(neg_claim)
+            r = s.check()
+            if r != z3.unknown:
+                break
         self.part.queries += 1
         self.part.solver_s += time.time() - t0
         self.last = s
@@ -272,6 +289,36 @@ class Ctx:
         self.failures = []     # (description, model inputs, replay descriptor)
         self.unknown = []
         self.paths = 0
+        self.probes = {}       # label -> value of the encoding at a concrete input (translator validation)
+
+    def probe(self, label, ex, outs, getter, bindings):
+        """evaluate the encoding at one concrete input: the outcome whose path is satisfiable under the bindings"""
+        for o in outs:
+            if getattr(o, "kind", "") != "return":
+                continue
+            s = z3.Solver()
+            s.set("timeout", 20000)
+            for c in ex.domain + ex.assumptions + list(o.path.pc):
+                s.add(c)
+            for t, v in bindings:
+                if isinstance(v, bool):
+                    s.add(t if v else z3.Not(t))
+                else:
+                    s.add(t == v)
+            if s.check() != z3.sat:
+                continue
+            try:
+                term = getter(o)
+            except Exception:  # noqa: BLE001
+                continue
+            if term is None:
+                continue
+            val = val_py(s.model().eval(term, model_completion=True))
+            try:
+                self.probes[label] = to_f64(val)
+            except Exception:  # noqa: BLE001
+                pass
+            return
 
     def encode(self, model, replay):
         if replay is None:
@@ -325,6 +372,7 @@ def run_specs(prop, tier, only):
             parts.append(p)
         return parts, M_ASSUMPTIONS, {}
     replayer = Replayer()
+    all_probes = {}
     try:
         for s in todo:
             p = Part("M", s.name, s.about)
@@ -347,11 +395,53 @@ def run_specs(prop, tier, only):
             except z3.Z3Exception as ex:
                 p.status, p.reason = "inconclusive", "z3 error: %s" % ex
             p.wall = time.time() - t0
+            all_probes.update(ctx.probes)
             log("  [M] %-38s %-12s %6.1fs paths=%d queries=%d %s" % (s.name, p.status, p.wall, ctx.paths, p.queries, p.reason[:120]))
             parts.append(p)
+        compared = 0
+        if all_probes and not only:
+            compared, vp = validate_probes(all_probes, replayer)
+            parts.append(vp)
     finally:
         replayer.close()
-    return parts, M_ASSUMPTIONS, {"mir_dump_s": round(mir()["wall"], 1), "programs": len({f for p in parts for f in p.functions}) or 1}
+    return parts, M_ASSUMPTIONS, {"mir_dump_s": round(mir()["wall"], 1), "programs": len({f for p in parts for f in p.functions}) or 1,
+                                  "disagreements_checked": compared}
+
+
+def validate_probes(probes, replayer):
+    """translator validation: the encoding evaluated at concrete inputs against the native functions"""
+    p = Part("M", "m_translator_validation", "the SMT encoding of each translated function, evaluated at concrete inputs, agrees with the native function on the same inputs (probe list: kani/harness/c10.rs m_probe_all)")
+    t0 = time.time()
+    rec = replayer.replay("m_probe_all", [], release=False, raw=True)
+    native = {}
+    for line in (rec.get("output") or "").splitlines():
+        m = re.match(r"^PROBE (\S+) (\S+)$", line.strip())
+        if m:
+            try:
+                native[m.group(1)] = float(m.group(2))
+            except ValueError:
+                pass
+    bad, n = [], 0
+    for label, v in sorted(probes.items()):
+        if label not in native:
+            continue
+        n += 1
+        w = native[label]
+        if not (abs(v - w) <= 1e-9 * max(1.0, abs(w))):
+            bad.append((label, v, w))
+    p.queries = n
+    p.wall = time.time() - t0
+    p.sample = {"compared": {k: probes[k] for k in sorted(probes) if k in native}}
+    if not native:
+        p.status, p.reason = "inconclusive", "native probe run produced no output: %s" % str({k: v for k, v in rec.items() if k != "output"})[:300]
+    elif bad:
+        p.status, p.reason = "inconclusive", "encoding and native function disagree (translator or model defect): %s" % bad[:4]
+    elif n == 0:
+        p.status, p.reason = "inconclusive", "no probe could be compared"
+    else:
+        p.status = "pass"
+    log("  [M] %-38s %-12s %6.1fs probes compared=%d %s" % (p.name, p.status, p.wall, n, p.reason[:120]))
+    return n, p
 
 
 def finalize_failures(p, ctx, replayer, tier="quick"):
